@@ -90,6 +90,9 @@ def make_batch(spec):
     rs = np.random.RandomState(spec["seed"])
     x = rs.randint(0, 60, size=(spec["n"], 3, H, spec["w"])).astype(np.float64)
     for n in range(spec["n"]):          # lines differ strongly (level, horizontal gradient), so that they end at different steps
+        if spec.get("binary") and n == spec["seed"] % spec["n"]:
+            x[n] = rs.randint(0, 2, size=x[n].shape)       # a binarised line stored with values 0 / 1
+            continue
         level = rs.choice([0, 50, 110, 170, 195])
         ramp = np.linspace(0, rs.choice([0, 40, -40]), spec["w"])
         x[n] += level + ramp[None, None, :]
@@ -98,7 +101,8 @@ def make_batch(spec):
 
 def batch_spec():
     from hypothesis import strategies as st
-    return st.fixed_dictionaries(dict(seed=st.integers(0, 2 ** 31 - 1), n=st.integers(1, 4), w=st.sampled_from([32, 48, 64, 96, 160])))
+    return st.fixed_dictionaries(dict(seed=st.integers(0, 2 ** 31 - 1), n=st.integers(1, 4), w=st.sampled_from([32, 48, 64, 96, 160]),
+                                      binary=st.sampled_from([False, False, True])))
 
 
 def close(a, b, tol=2e-5):
@@ -198,7 +202,7 @@ def make_machine(ctx):
         @rule(k=st.integers(0, 5), seed=st.integers(0, 2 ** 31 - 1))
         def transcribe_same_shape(self, k, seed):
             prev = self.batches[k % len(self.batches)]
-            self.do(("transcribe", dict(seed=seed, n=prev["n"], w=prev["w"])))
+            self.do(("transcribe", dict(seed=seed, n=prev["n"], w=prev["w"], binary=False)))
 
         @precondition(lambda self: self.cfg is not None)
         @rule(b=batch_spec(), L=st.integers(1, 6))
@@ -211,6 +215,7 @@ def make_machine(ctx):
             self.model = copy.deepcopy(self.pristine)
             self.engine = make_engine(self.model, cfg)
             self.batches = []
+            self.kept = []          # (scores array as returned, snapshot at return time) of earlier batches
             self.nontrivial = False
 
         def op_forward(self, b, L):
@@ -233,6 +238,12 @@ def make_machine(ctx):
                 raise
             except Exception as e:  # noqa
                 ctx.fail("transcribe_raises", "%s: %s; " % (type(e).__name__, e) + desc())
+            # results handed out earlier are not changed by decoding another batch
+            for arr, snap in self.kept:
+                ctx.check(arr.shape == snap.shape and np.array_equal(arr, snap), "earlier_result_changed_by_later_batch",
+                          lambda: "scores returned for an earlier batch were overwritten; " + desc())
+            self.kept.append((logits, logits.copy()))
+            self.kept = self.kept[-3:]
             # (d) termination and cleanliness
             ctx.check(logits.shape[1] <= cap + 2, "decoding_exceeds_length_cap", lambda: "%d steps for cap %d; " % (logits.shape[1], cap) + desc())
             for o in outs:
